@@ -106,6 +106,10 @@ func (p *Plenc) CodecForTypeRegistry(registry plenccodec.CodecRegistry, typ refl
 
 	switch typ.Kind() {
 	case reflect.Ptr:
+		if typ.Elem().Kind() == reflect.Map {
+			// A map codec works on the map itself, not on a pointer to it
+			return nil, fmt.Errorf("pointers to maps are not supported")
+		}
 		subc, err := p.CodecForTypeRegistry(registry, typ.Elem(), tag)
 		if err != nil {
 			return nil, err
